@@ -4,6 +4,7 @@ import (
 	"encoding/hex"
 	"encoding/json"
 	"fmt"
+	"hash/fnv"
 	"io"
 	"os"
 	"reflect"
@@ -191,7 +192,25 @@ func runMerge(sc *Scenario) (string, interface{}, *Event, error) {
 		return "", nil, nil, err
 	}
 	defer os.RemoveAll(work)
-	r, err := cli.NewRepoFast(work, "client", "")
+	// the fast-forward mode comes from the command line, from merge.fastForward, or from both - the command line
+	// then wins (getFastForward): the same scenario is run in one of these three ways
+	hh := fnv.New32a()
+	fmt.Fprint(hh, sc.Par, sc.Receiver, sc.Refs, sc.Mode)
+	how := int(hh.Sum32() % 3)
+	cfgFF, flag := "", ""
+	switch sc.Mode {
+	case "ffonly":
+		cfgFF, flag = [3]string{"", "never", "only"}[how], [3]string{"--ff-only", "--ff-only", ""}[how]
+	case "noff":
+		cfgFF, flag = [3]string{"", "only", "never"}[how], [3]string{"--no-ff", "--no-ff", ""}[how]
+	default:
+		cfgFF, flag = [3]string{"", "never", "only"}[how], [3]string{"", "--ff", "--ff"}[how]
+	}
+	extra := ""
+	if cfgFF != "" {
+		extra = "merge:\n  fastForward: " + cfgFF + "\n"
+	}
+	r, err := cli.NewRepoFast(work, "client", extra)
 	if err != nil {
 		return "", nil, nil, err
 	}
@@ -210,11 +229,8 @@ func runMerge(sc *Scenario) (string, interface{}, *Event, error) {
 		return "", nil, nil, err
 	}
 	args := []string{"merge", "main", "other", "--no-gui"}
-	switch sc.Mode {
-	case "ffonly":
-		args = append(args, "--ff-only")
-	case "noff":
-		args = append(args, "--no-ff")
+	if flag != "" {
+		args = append(args, flag)
 	}
 	out, runErr := r.Run(nil, args...)
 	cdb, crs, closeFn, err = r.Open()
@@ -228,7 +244,8 @@ func runMerge(sc *Scenario) (string, interface{}, *Event, error) {
 	}
 	want := refPairs(sc.Refs)
 	got := sideRefs(after)
-	detail := map[string]interface{}{"expected_refs": want, "observed_refs": got, "output": tail(out, 600), "error": fmt.Sprint(runErr), "mode": sc.Mode}
+	detail := map[string]interface{}{"expected_refs": want, "observed_refs": got, "output": tail(out, 600), "error": fmt.Sprint(runErr), "mode": sc.Mode,
+		"flag": flag, "merge.fastForward": cfgFF}
 	ev := &Event{Op: "sync", Kind: "merge", Par: parList(par), Before: before, After: after, Sender: before, Forced: []string{},
 		Logs: newestLogs(u, crs, sideRefs(before), got), Ok: runErr == nil, Repeat: map[string]interface{}{"changed": false, "transferred": 0}}
 	for n, w := range want {
